@@ -24,7 +24,7 @@ RULE = ("literal texts: prefix in {'', r, b, br, rb} x random body of atomic ite
         "`]`, closer fragments, embedded closers and leading newlines. Non-trivial = content with an "
         "escape, a non-ASCII character or a newline; distinct by literal text.")
 FLOOR = {"quick": 4000, "thorough": 4000}
-BUDGET = {"quick": 25, "thorough": 480}
+BUDGET = {"quick": 20, "thorough": 480}
 CASE_TIMEOUT = 20
 NEEDS_EVENTS = True
 ANCHORS = ["hy.reader.hy_reader:HyReader.prefixed_string",
@@ -236,8 +236,25 @@ def run_bracket(case):
     return res
 
 
+KEY_NL_CLOSER = "bracket-closer-appears-after-newline-normalisation"
+
+
 def run_case(case):
-    return run_quoted(case) if case["kind"] == "quoted" else run_bracket(case)
+    if case["kind"] == "quoted":
+        return run_quoted(case)
+    res = run_bracket(case)
+    if res["ok"] is False:
+        # known mechanism: the delimiter contains a newline character and the
+        # content contains `]` + a *different* newline style + `]`: no closer in
+        # the raw text, but one in the normalised content, which String() rejects.
+        delim, content = case["delim"], case["content"]
+        closer = "]" + delim + "]"
+        denoted = (content + closer)[:(content + closer).find(closer)]
+        if "\r" in denoted and tg.normalize_newlines(closer) in tg.normalize_newlines(denoted):
+            c2 = dict(case, content=content.replace("\r", "x"))
+            if run_bracket(c2)["ok"] is True:
+                res["finding"] = KEY_NL_CLOSER
+    return res
 
 
 def gate(tot, classes, extra, tier):
